@@ -31,5 +31,6 @@ try:
 finally:
     sh("git -C /repo checkout -- . && git -C /repo clean -fdq -- pie graph")
     sh(f"cd {ROOT}/sim && cargo build --release --offline")
+    sh(f"git -C {ROOT} checkout -- evidence")
 missed = [k for k, v in results.items() if not v]
 print("missed:", missed)
